@@ -7,7 +7,8 @@ USES_LABELS = True
 RULE = ("sequences of registrations and logins (several users, re-registration, varying contexts and tapes): every login returns "
         "the registration's export key; new registration / other password / user / server give different export keys; substring "
         "scan of every message, password file and server-side state for every secret of >= 16 bytes (export key, session key, "
-        "password). distinct = distinct (suite, op, args)")
+        "password); the same scan over the native, serde-bincode and serde-json encodings of every object as it lives in memory "
+        "right after it was made (and: a fresh object encodes exactly as its restored copy). distinct = distinct (suite, op, args)")
 ASSUMPTIONS = ["'not a field' is proved for the hash-derived fields up to explicit collision events; unaligned verbatim appearance is explored"]
 
 
@@ -67,6 +68,66 @@ def stable(ctx, pw, cred=b"alice"):
         ctx.expect(m.find(ek) < 0, "export key is not in the client's persisted state")
 
 
+def _flat(blob, fmt):
+    """bytes an encoder wrote, as a searchable byte string (JSON: all integers in document order, plus the raw text)"""
+    if fmt != "json":
+        return [blob]
+    import json
+    out = []
+    def walk(x):
+        if isinstance(x, bool) or x is None:
+            return
+        if isinstance(x, int):
+            out.append(x & 0xff if 0 <= x < 256 else 0x100)
+        elif isinstance(x, list):
+            for y in x: walk(y)
+        elif isinstance(x, dict):
+            for y in x.values(): walk(y)
+    try:
+        walk(json.loads(blob.decode("utf-8", "replace")))
+    except ValueError:
+        pass
+    return [bytes(v for v in out if v < 256), blob]
+
+
+def in_memory(ctx, pw, cred):
+    """what an encoder (native, serde-bincode, serde-json) sees of every object as it lives in memory right after it was
+    made - not only after a native round trip: no message, file or server-side object carries the export key"""
+    ctx.nontrivial = True
+    names = ["ServerSetup", "RegistrationRequest", "ClientRegistration", "RegistrationResponse", "RegistrationUpload", "ServerRegistration",
+             "CredentialRequest", "ClientLogin", "CredentialResponse", "ServerLogin", "CredentialFinalization"]
+    t = flow_tape(ctx)
+    ctx.counting = True
+    sizes = {}
+    for fmt in ("native", "bincode", "json"):
+        r = ctx.call("flow_blobs", 0, fmt, t, pw, cred, b"ctx", None, None, "~", impl_only=True)
+        if r is None:
+            return
+        if not ctx.expect(r.ok and len(r.outs) == 15, "in-memory flow encodes through %s (%s)" % (fmt, r.err)):
+            continue
+        blobs = [r.b(i) for i in range(11)]
+        ek, skc, sks, ek2 = r.b(11), r.b(12), r.b(13), r.b(14)
+        ctx.expect(ek == ek2 and skc == sks, "keys agree")
+        for i, (nm, b) in enumerate(zip(names, blobs)):
+            for hay in _flat(b, fmt):
+                ctx.expect(hay.find(ek) < 0 and hay.find(ek.hex().encode()) < 0, "export key does not appear in the %s encoding of the in-memory %s" % (fmt, nm))
+                if nm != "ServerLogin":
+                    ctx.expect(hay.find(skc) < 0, "session key does not appear in the %s encoding of the in-memory %s" % (fmt, nm))
+                if len(pw) >= 16 and nm not in ("ClientRegistration", "ClientLogin"):
+                    ctx.expect(hay.find(pw) < 0, "password does not appear in the %s encoding of the in-memory %s" % (fmt, nm))
+        if fmt == "native":
+            for nm, b in zip(names, blobs):
+                d = ctx.call("dec", nm, b, impl_only=True)
+                ctx.expect(d.ok and d.b(0) == b, "native encoding of the in-memory %s is what a restored copy encodes to" % nm)
+        else:
+            # a serde encoding of the fresh object carries what the restored object's does: nothing more
+            for nm, b, nb in zip(names, blobs, sizes.get("native", [])):
+                q = ctx.call("serde_enc", nm, fmt, nb, impl_only=True)
+                ctx.expect(q is None or (q.ok and q.b(0) == b), "serde-%s of the in-memory %s equals serde-%s of its restored copy" % (fmt, nm, fmt))
+        if fmt == "native":
+            sizes["native"] = blobs
+
+
 def cases(tier, seed):
     out = []
     pws = [(b"a sixteen byte pw", b"alice"), (b"A long pass-phrase, longer than any hash block: " + b"correct horse battery staple " * 6, b"user-record/" * 30 + b"alice"),
@@ -74,4 +135,5 @@ def cases(tier, seed):
     for si, s in enumerate(suites_for(tier, seed)):
         for k, (pw, cred) in enumerate(pws if tier == "thorough" else pws[:2]):
             out.append(dict(script=stable, suite=s, seed=seed * 10000 + si * 10 + k, mode="pattern", params=dict(pw=pw, cred=cred)))
+        out.append(dict(script=in_memory, suite=s, seed=seed * 10000 + si * 10 + 8, mode="pattern", params=dict(pw=b"a sixteen byte password", cred=b"alice")))
     return out
